@@ -530,7 +530,11 @@ impl AnnotationStore {
                     "Inserting dataitem failed (AnnotationStore.annotate)",
                 )
             })?;
-            data.push((datasethandle, datahandle));
+            // an annotation carries a data item once, also when it is offered twice
+            // (an id-less repetition of a key/value pair resolves to the same item)
+            if !data.contains(&(datasethandle, datahandle)) {
+                data.push((datasethandle, datahandle));
+            }
         }
 
         // Has the caller set a public ID for this annotation?
